@@ -309,6 +309,12 @@ UNARY = {"neg", "pos", "abs", "invert"}
 
 
 # ---------------------------------------------------------------------------- build under tawazi
+class TagResolutionError(KeyError):
+    """dag.get_nodes_by_tag(<the tag only one call site carries>) did not return exactly that node.  Every call site
+    of a generated program carries a tag of its own, so this is a misbehaviour of the public tag API and not of the
+    harness (which resolves all node ids through it)."""
+
+
 class Built:
     def __init__(self, prog: Dict[str, Any], dag: Any, xns: Dict[str, Any], subs: Dict[str, "Built"]):
         self.prog = prog
@@ -319,7 +325,7 @@ class Built:
     def node_id(self, site: str) -> str:
         nodes = self.dag.get_nodes_by_tag(site.lstrip(MARK))
         if len(nodes) != 1:
-            raise KeyError(f"site {site} resolves to {len(nodes)} nodes")
+            raise TagResolutionError(f"site {site} resolves to {len(nodes)} nodes")
         return nodes[0].id  # type: ignore[no-any-return]
 
     def node_ids(self) -> Dict[str, str]:
